@@ -249,3 +249,15 @@ Definition specialize_commands (pt : bool) (ms : Z) (cs : list cmd) : Res (list 
   let* g := generalize_all cs in
   let* segs := interp_all g in
   Ok (specialize pt ms segs).
+
+(* operator arities of the Type 2 format (TN#5177): the argument counts each path operator accepts *)
+Definition arity_legal (o : op) (l : nat) : bool :=
+  if o =? RMOVETO then Nat.eqb l 2
+  else if (o =? HMOVETO) || (o =? VMOVETO) then Nat.eqb l 1
+  else if o =? RLINETO then Nat.leb 2 l && Nat.even l
+  else if (o =? HLINETO) || (o =? VLINETO) then Nat.leb 1 l
+  else if o =? RRCURVETO then Nat.leb 6 l && Nat.eqb (l mod 6) 0
+  else if (o =? HHCURVETO) || (o =? VVCURVETO) || (o =? HVCURVETO) || (o =? VHCURVETO) then Nat.leb 4 l && Nat.leb (l mod 4) 1
+  else if o =? RCURVELINE then Nat.leb 8 l && Nat.eqb (l mod 6) 2
+  else if o =? RLINECURVE then Nat.leb 8 l && Nat.even l
+  else false.
